@@ -21,7 +21,7 @@ open KafVerif.S3Aws (Api Err lookup Ret isBucketMissing isNotFound)
 /-! ### response bodies -/
 
 /-- how a body ends: `io.EOF`, `io.ErrUnexpectedEOF`, another transfer error; `fuel` = the model's loop bound ran out
-(never reached with the fuel the model uses, see `readAll_complete`) -/
+(never reached on a complete transfer with the fuel the model uses: `readAll_complete` in Lemmas/S3Chunks.lean) -/
 inductive Term where
   | eof | uexp | reset | fuel
 deriving Repr, DecidableEq
